@@ -253,3 +253,14 @@ Theorem kml_latlonbox_is_transformed_rectangle :
     (merc = false \/ let '(_, s1, _, s3) := src in tenth <= Z.abs (s1 + world) /\ tenth <= Z.abs (s3 - world)) ->
     kml_bbox_to_wgs T merc world tenth pole src = T src.
 Proof. exact kml_bbox_to_wgs_plain_l. Qed.
+
+
+(* WMTS, converse of wmts_address_exact: a (TileMatrix, TileCol, TileRow) that GetTile serves lies inside the
+   MatrixWidth x MatrixHeight of an advertised TileMatrix - the advertised dimensions are exactly grid_sizes, the numbers
+   limit_tile refuses with; together with wmts_address_exact: advertised addresses = served addresses (seeded change
+   C02-u1 recomputes the advertised dimensions from the bbox and breaks the other inclusion). *)
+Theorem wmts_served_is_advertised :
+  forall s srv m col row c,
+    served s srv (AWmts m col row) = Some c ->
+    exists r, client_rect s srv (AWmts m col row) = Some r.
+Proof. exact wmts_served_is_advertised_l. Qed.
